@@ -142,6 +142,7 @@ package main
 //@   ensures unexpired-kept: forall k string :: k != dialog && old(has(dbb.backends, k)) && old(dbb.backends[k]).expire >= now ==> has(dbb.backends, k)
 //@   ensures sweep-when-due: old(dbb.nextCleanTime) < old(now) ==> (forall k string :: k != dialog && has(dbb.backends, k) ==> dbb.backends[k].expire >= old(now))
 //@   ensures sweep-period: dbb.nextCleanTime <= old(dbb.nextCleanTime) || dbb.nextCleanTime <= now + dbb.timeout
+//@   ensures reschedule-only-with-sweep: dbb.nextCleanTime > old(dbb.nextCleanTime) ==> (forall k string :: k != dialog && has(dbb.backends, k) ==> dbb.backends[k].expire >= old(now))
 
 // ---- sending over TCP with fail-over (C20) ----
 // Ghost logs at the net boundary: wok/wbytes (connections and buffers of complete successful writes),
